@@ -1896,6 +1896,20 @@ def build_pyr_case(ctx, idx):
     mem = rv.choice(LAYOUTS)
     typ, typ_spell = spell_type(rv, seg_type)
     descr.update(memory=mem, type_spelling=typ_spell)
+    # constructor options handed through: tile size (non-square), dimension organisation, omission of empty tiles
+    ro = ctx.rng('pyropt', idx)
+    opt = {}
+    if ro.random() < 0.6:
+        opt['tile_size'] = (ro.randint(2, 6), ro.randint(2, 6))
+    dorg = ro.choice(['default', 'default', 'TILED_SPARSE', 'TILED_FULL'])
+    if dorg != 'default':
+        opt['dimension_organization_type'] = dorg
+    if dorg == 'TILED_FULL':
+        opt['omit_empty_frames'] = False            # the constructor refuses the default (True) with TILED_FULL
+    elif ro.random() < 0.5:
+        opt['omit_empty_frames'] = ro.random() < 0.7
+    descr.update(options={k: (list(v) if isinstance(v, tuple) else v) for k, v in opt.items()})
+    kw.update(opt)
     if mode == 'factors':
         fs = sorted({r.choice([1.1, 1.5, 1.8, 2.0, 2.0, 2.1, 2.5, 3.0, 3.3, 4.0, 4.0, 5.0]) for _ in range(r.randint(1, 3))})
         fs = [f for f in fs if int(rows / f) >= 1 and int(cols / f) >= 1]
@@ -1919,7 +1933,15 @@ def build_pyr_case(ctx, idx):
             a_.flat[0] = 1
         arrs = [relayout(a_, mem) for a_ in arrs]
         mk = lambda: hd.seg.create_segmentation_pyramid([src], arrs, typ, descs, **kw)  # noqa: E731
-    return descr, ps, mk
+        level_masks = [np.asarray(base[:a, :b]).copy() for a, b in sizes]
+        for m_ in level_masks:
+            m_.flat[0] = 1
+    if mode == 'factors':
+        level_masks = [base.copy()]
+    org = src.TotalPixelMatrixOriginSequence[0]
+    source = ([fr(org.XOffsetInSlideCoordinateSystem), fr(org.YOffsetInSlideCoordinateSystem),
+               fr(org.get('ZOffsetInSlideCoordinateSystem', 0.0))], [fr(x) for x in src.ImageOrientationSlide])
+    return descr, {'ps': ps, 'masks': level_masks, 'source': source}, mk
 
 
 def run_pyr(ctx, reqs, pending):
@@ -1929,11 +1951,14 @@ def run_pyr(ctx, reqs, pending):
 
 
 def check_pyr_case(ctx, descr, ps, mk, reqs, pending):
+    extras = ps if isinstance(ps, dict) else {'ps': ps}
+    ps = extras['ps']
     if descr['mode'] == 'factors' and not descr['factors']:
         return
     st, segs = _fetch(mk)
     hkey = dict(stream='pyr', rank=descr['rank'], mode=descr['mode'], type=descr['type'], memory=descr.get('memory'),
-                factor_spelling=descr.get('factor_spelling'), square=descr['rows'] == descr['cols'])
+                factor_spelling=descr.get('factor_spelling'), square=descr['rows'] == descr['cols'],
+                pyramid_options=str(sorted(descr.get('options', {}).items())))
     if st != 'ok':
         ctx.case(outcome='construct-refused', **hkey)
         ctx.fail(descr, f'pyramid refused: {segs}', site='create_segmentation_pyramid')
@@ -1963,6 +1988,33 @@ def check_pyr_case(ctx, descr, ps, mk, reqs, pending):
                          site='pyramid/geometry-extent')
         else:
             ctx.fail(dict(descr, level=lvl), f'pyramid level has no volume geometry: {geom}', site='pyramid/geometry')
+        # every level whose mask is known (all levels when the arrays are given, level 0 otherwise) must read back as that mask
+        # at the SOURCE's origin with the level's spacing, and its stored tiles must be the tiles of that mask
+        masks = extras.get('masks') or []
+        if lvl < len(masks):
+            m0 = masks[lvl].astype(np.int64)
+            if descr['rank'] == 4 and descr['nseg'] == 2:
+                lab_l = np.where(m0 > 0, 1, 2)
+            else:
+                lab_l = m0
+            s_origin, s_ios = extras['source']
+            lv_ps = (ps[0] * descr['rows'] / rl, ps[1] * descr['cols'] / cl)
+            stv, v = _fetch(s.get_volume, combine_segments=True)
+            if stv != 'ok':
+                ctx.fail(dict(descr, level=lvl), f'get_volume of a pyramid level refused: {v}', site='pyramid/get_volume')
+            else:
+                out = np.asarray(v.array)
+                if descr['type'] == 'FRACTIONAL':
+                    out = np.rint(out.astype(np.float64)).astype(np.int64)
+                for b in positional_oracle(out, v.affine, [(s_origin, lab_l)], s_ios[:3], s_ios[3:], lv_ps, False, f'level {lvl}')[:2]:
+                    ctx.fail(dict(descr, level=lvl), b, site='pyramid/position')
+            if 'PerFrameFunctionalGroupsSequence' in s:
+                o_ = s.TotalPixelMatrixOriginSequence[0]
+                ld = dict(descr, level=lvl, total=[rl, cl], tile=[int(s.Rows), int(s.Columns)], exact=(lvl == 0),
+                          omit=bool(descr.get('options', {}).get('omit_empty_frames', True)))
+                tile_frames_l1(ctx, ld, s, lab_l[None], [fr(o_.XOffsetInSlideCoordinateSystem), fr(o_.YOffsetInSlideCoordinateSystem),
+                                                          fr(o_.get('ZOffsetInSlideCoordinateSystem', 0.0))],
+                               [fr(x) for x in s.ImageOrientationSlide], sp, reqs, pending)
         # model (translated spacing expression): level spacing from the array ranks/shapes the code saw
         rank0 = descr['rank']
         rankl = rank0 if (descr['mode'] == 'arrays' or lvl == 0) else max(3, rank0 if rank0 == 4 else 3)
